@@ -8,8 +8,8 @@ operation at that point (concurrency mode S1).
 import re
 from . import sym as S
 from . import mir as M
-from .values import (UNDEF, UNIT, EnumV, RefV, VecV, Unsupported, merge, enum_const, none, some, option, veq,
-                     empty_vec)
+from .values import (UNDEF, UNIT, EnumV, RefV, VecV, MapV, FifoV, Unsupported, merge, enum_const, none, some, option,
+                     veq, empty_vec, key_repr, terms_of)
 from .exec import load_path, store_path
 
 
@@ -78,6 +78,9 @@ class Models(object):
     def call(self, ex, fr, callee, argv, st, pc, arg_ops):
         key = norm(callee)
         h = self.table.get(key)
+        if h is None and key.endswith(' as Clone>::clone'):
+            # Clone of a type without a Clone impl in the crate: std / derived-on-foreign type = value copy
+            h = self.table['<T as Clone>::clone']
         if h is None:
             raise Unsupported('no environment model for callee `%s` (key %s) in %s' % (callee, key, fr.fn.name))
         self.used[key] = self.used.get(key, 0) + 1
@@ -140,8 +143,7 @@ class Models(object):
         R('Option::is_some', lambda ex, fr, c, a, st, pc: (S.Eq(self.rd(st, a[0]).tag, S.bv(1, 64)), S.TRUE))
         R('Option::map', self.opt_map)
         # --- dashmap
-        R('DashMap::new', lambda ex, fr, c, a, st, pc:
-          (('dashmap',) + tuple((S.FALSE, UNDEF, UNDEF) for _ in range(self.map_cap)), S.TRUE))
+        R('DashMap::new', lambda ex, fr, c, a, st, pc: (MapV(), S.TRUE))
         R('DashMap::insert', self.dm_insert)
         R('DashMap::remove', self.dm_remove)
         R('DashMap::get', self.dm_get)
@@ -150,8 +152,7 @@ class Models(object):
         R('DashMap::iter', self.dm_iter)
         R('Ref::value|RefMulti::value', self.dmref_value)
         # --- segqueue
-        R('SegQueue::new', lambda ex, fr, c, a, st, pc:
-          (('segq', tuple(UNDEF for _ in range(self.queue_cap)), S.bv(0, 64), S.bv(0, 64)), S.TRUE))
+        R('SegQueue::new', lambda ex, fr, c, a, st, pc: (FifoV(), S.TRUE))
         R('SegQueue::push', self.sq_push)
         R('SegQueue::pop', self.sq_pop)
         # --- vec / iterators
@@ -178,6 +179,8 @@ class Models(object):
         # --- uuid
         R('<u64 as ToString>::to_string', lambda ex, fr, c, a, st, pc: (('decstr', self.rd(st, a[0])), S.TRUE))
         R('String::as_bytes', lambda ex, fr, c, a, st, pc: (a[0], S.TRUE))
+        # text only used for error messages: opaque
+        R('<str as ToString>::to_string|<String as Clone>::clone|fmt::format', lambda ex, fr, c, a, st, pc: (('string', 'opaque'), S.TRUE))
         R('v5::new_v5', self.uuid_v5)
 
     # ------------------------------------------------------------------ atomics
@@ -219,90 +222,131 @@ class Models(object):
         return EnumV(o.tag, {0: (), 1: (rv,)}), st2, S.Or(S.Not(is_some), live)
 
     # ------------------------------------------------------------------ dashmap
-    def _slots(self, st, ref):
+    # The map is a set of entries indexed by *concrete* candidate keys.  A symbolic key must be a
+    # const-leaf ite tree (e.g. a selector over the ids used in the scenario); it is resolved by
+    # case distinction over its possible constant values.
+    def _map(self, st, ref):
         v = self.rd(st, ref)
-        if not (isinstance(v, tuple) and v and v[0] == 'dashmap'):
-            raise Unsupported('not a dashmap: %r' % (v,))
-        return list(v[1:])
+        if not isinstance(v, MapV):
+            raise Unsupported('not a map model: %r' % (v,))
+        return v
 
-    def _hits(self, slots, key):
-        hits = []
-        for occ, k, v in slots:
-            if occ is S.FALSE or k is UNDEF:
-                hits.append(S.FALSE)
-            else:
-                hits.append(S.And(occ, veq(k, key)))
-        return hits
+    def candidates(self, key):
+        """[(concrete key value, condition that key equals it)]"""
+        r = key_repr(key)
+        if r is not None:
+            return [(key, S.TRUE)]
+        ts = terms_of(key, [])
+        if not all(t.cl for t in ts):
+            raise Unsupported('map key is neither constant nor a selector over constants: %r' % (key,))
 
-    def _sel(self, slots, hits, what):
-        acc = UNDEF
-        for (occ, k, v), h in reversed(list(zip(slots, hits))):
-            if h is S.FALSE:
-                continue
-            acc = merge(h, v if what == 'v' else k, acc)
-        return acc
+        def expand(v):
+            # all (concrete value, condition) alternatives of a value made of const-leaf trees
+            if isinstance(v, S.Term):
+                lv = S.leaf_consts(v, 64)
+                if lv is None:
+                    raise Unsupported('too many alternatives for a map key')
+                mk = (lambda x: S.boolc(x)) if v.sort == S.B else (lambda x: S.bv(x, v.sort))
+                return [(mk(x), S.Eq(v, mk(x))) for x in sorted(lv)]
+            if isinstance(v, tuple):
+                alts = [((), S.TRUE)]
+                for x in v:
+                    alts = [(p + (y,), S.And(c, d)) for p, c in alts for y, d in expand(x)]
+                return alts
+            if isinstance(v, EnumV):
+                out = []
+                for t, ct in expand(v.tag):
+                    p = v.payloads.get(S.cval(t), ())
+                    if p is UNDEF:
+                        continue
+                    for pv, cp in expand(p):
+                        out.append((EnumV(t, {S.cval(t): pv}), S.And(ct, cp)))
+                return out
+            raise Unsupported('map key component %r' % (v,))
+
+        return [(k, c) for k, c in expand(key) if c is not S.FALSE]
 
     def dm_insert(self, ex, fr, c, a, st, pc):
         st = ex.shared('map.insert', a[0], st, pc)
-        slots = self._slots(st, a[0])
+        m = self._map(st, a[0])
         key, val = a[1], a[2]
-        hits = self._hits(slots, key)
-        anyhit = S.Or(hits)
-        old = self._sel(slots, hits, 'v')
-        new = []
-        allocc = S.TRUE
-        for (occ, k, v), h in zip(slots, hits):
-            free_first = S.And(S.Not(occ), allocc)
-            w = S.Or(h, S.And(S.Not(anyhit), free_first))
-            if w is S.FALSE:
-                new.append((occ, k, v))
+        entries = list(m.entries)
+        idx = {key_repr(e[0]): i for i, e in enumerate(entries)}
+        old = UNDEF
+        had = S.FALSE
+        for k, ck in self.candidates(key):
+            r = key_repr(k)
+            if r in idx:
+                i = idx[r]
+                e = entries[i]
+                old = merge(S.And(ck, e[1]), e[2], old)
+                had = S.Or(had, S.And(ck, e[1]))
+                entries[i] = (e[0], S.Or(ck, e[1]), merge(ck, val, e[2]))
             else:
-                new.append((S.Or(occ, w), merge(w, key, k), merge(w, val, v)))
-            allocc = S.And(allocc, occ)
-        self.capacity_event(ex, S.And(pc, S.Not(anyhit), allocc), 'DashMap', fr)
-        self.wr(st, a[0], ('dashmap',) + tuple(new))
+                idx[r] = len(entries)
+                entries.append((k, ck, val))
+        self.wr(st, a[0], MapV(entries))
         if old is UNDEF:
             return none(), st, S.TRUE
-        return option(anyhit, old), st, S.TRUE
+        return option(had, old), st, S.TRUE
+
+    def _lookup(self, m, key):
+        idx = {key_repr(e[0]): e for e in m.entries}
+        hit = S.FALSE
+        val = UNDEF
+        conds = []
+        for k, ck in self.candidates(key):
+            e = idx.get(key_repr(k))
+            if e is None:
+                continue
+            h = S.And(ck, e[1])
+            if h is S.FALSE:
+                continue
+            conds.append((key_repr(k), ck))
+            val = merge(h, e[2], val)
+            hit = S.Or(hit, h)
+        return hit, val, conds
 
     def dm_remove(self, ex, fr, c, a, st, pc):
         st = ex.shared('map.remove', a[0], st, pc)
-        slots = self._slots(st, a[0])
+        m = self._map(st, a[0])
         key = self.rd(st, a[1])
-        hits = self._hits(slots, key)
-        anyhit = S.Or(hits)
-        val = self._sel(slots, hits, 'v')
-        new = [(S.And(occ, S.Not(h)), k, v) for (occ, k, v), h in zip(slots, hits)]
-        self.wr(st, a[0], ('dashmap',) + tuple(new))
+        hit, val, conds = self._lookup(m, key)
+        cd = dict(conds)
+        new = []
+        for e in m.entries:
+            ck = cd.get(key_repr(e[0]))
+            new.append(e if ck is None else (e[0], S.And(e[1], S.Not(ck)), e[2]))
+        self.wr(st, a[0], MapV(new))
         if val is UNDEF:
             return none(), st, S.TRUE
-        return option(anyhit, (key, val)), st, S.TRUE
+        return option(hit, (key, val)), st, S.TRUE
 
     def dm_get(self, ex, fr, c, a, st, pc):
         st = ex.shared('map.get', a[0], st, pc)
-        slots = self._slots(st, a[0])
+        m = self._map(st, a[0])
         key = self.rd(st, a[1])
-        hits = self._hits(slots, key)
-        val = self._sel(slots, hits, 'v')
+        hit, val, _ = self._lookup(m, key)
         if val is UNDEF:
             return none(), st, S.TRUE
-        return option(S.Or(hits), ('dmref', key, val)), st, S.TRUE
+        return option(hit, ('dmref', key, val)), st, S.TRUE
 
     def dm_len(self, ex, fr, c, a, st, pc):
         st = ex.shared('map.len', a[0], st, pc)
-        slots = self._slots(st, a[0])
-        return S.Sum([S.B2BV(occ, 64) for occ, _, _ in slots], 64), st, S.TRUE
+        m = self._map(st, a[0])
+        return S.Sum([S.B2BV(e[1], 64) for e in m.entries], 64), st, S.TRUE
 
     def dm_is_empty(self, ex, fr, c, a, st, pc):
         st = ex.shared('map.len', a[0], st, pc)
-        slots = self._slots(st, a[0])
-        return S.Not(S.Or([occ for occ, _, _ in slots])), st, S.TRUE
+        m = self._map(st, a[0])
+        return S.Not(S.Or([e[1] for e in m.entries])), st, S.TRUE
 
     def dm_iter(self, ex, fr, c, a, st, pc):
-        """iteration = one atomic snapshot of the map; order = slot order, optionally composed with an
-        arbitrary (symbolic) permutation since hash order is unspecified"""
+        """iteration = one atomic snapshot of the map; order = first-insertion order of the keys,
+        optionally composed with an arbitrary (symbolic) permutation since hash order is unspecified"""
         st = ex.shared('map.iter', a[0], st, pc)
-        slots = self._slots(st, a[0])
+        m = self._map(st, a[0])
+        slots = [(e[1], e[0], e[2]) for e in m.entries if e[1] is not S.FALSE]
         n = len(slots)
         if self.map_iter_symbolic and n > 1:
             w = 8
@@ -318,16 +362,13 @@ class Models(object):
                 for j in reversed(range(n)):
                     cj = S.Eq(ps[i], S.bv(j, w))
                     occ = S.Ite(cj, slots[j][0], occ)
-                    if slots[j][1] is not UNDEF:
-                        item = merge(cj, ('dmref', slots[j][1], slots[j][2]), item)
+                    item = merge(cj, ('dmref', slots[j][1], slots[j][2]), item)
                 order.append((occ, item))
         else:
-            order = [(occ, ('dmref', k, v) if k is not UNDEF else UNDEF) for occ, k, v in slots]
+            order = [(occ, ('dmref', k, v)) for occ, k, v in slots]
         cells = [UNDEF] * n
         cnt = S.bv(0, 64)
         for occ, item in order:
-            if occ is S.FALSE or item is UNDEF:
-                continue
             for k in range(n):
                 cells[k] = merge(S.And(occ, S.Eq(cnt, S.bv(k, 64))), item, cells[k])
             cnt = S.Ite(occ, S.Add(cnt, S.bv(1, 64)), cnt)
@@ -340,27 +381,39 @@ class Models(object):
         return RefV(a[0].root, a[0].path + (2,)), S.TRUE
 
     # ------------------------------------------------------------------ segqueue
+    # FIFO as guarded append-only entries; an entry's id is its creation order in the unrolled
+    # program, which is consistent with program order along every single path.
     def sq_push(self, ex, fr, c, a, st, pc):
         st = ex.shared('queue.push', a[0], st, pc)
         q = self.rd(st, a[0])
-        cells, head, tail = list(q[1]), q[2], q[3]
-        n = len(cells)
-        self.capacity_event(ex, S.And(pc, S.Eq(tail, S.bv(n, 64))), 'SegQueue', fr)
-        for k in range(n):
-            cells[k] = merge(S.Eq(tail, S.bv(k, 64)), a[1], cells[k])
-        self.wr(st, a[0], ('segq', tuple(cells), head, S.Add(tail, S.bv(1, 64))))
+        if not isinstance(q, FifoV):
+            raise Unsupported('not a fifo model: %r' % (q,))
+        self.fresh += 1
+        self.wr(st, a[0], FifoV(q.entries + ((self.fresh, S.TRUE, S.FALSE, a[1]),)))
         return UNIT, st, S.TRUE
 
     def sq_pop(self, ex, fr, c, a, st, pc):
         st = ex.shared('queue.pop', a[0], st, pc)
         q = self.rd(st, a[0])
-        cells, head, tail = q[1], q[2], q[3]
-        empty = S.Eq(head, tail)
-        val = select(cells, head)
-        self.wr(st, a[0], ('segq', cells, S.Ite(empty, head, S.Add(head, S.bv(1, 64))), tail))
+        if not isinstance(q, FifoV):
+            raise Unsupported('not a fifo model: %r' % (q,))
+        none_before = S.TRUE
+        val = UNDEF
+        new = []
+        firsts = []
+        for eid, present, popped, v in q.entries:
+            avail = S.And(present, S.Not(popped))
+            first = S.And(avail, none_before)
+            firsts.append((first, v))
+            new.append((eid, present, S.Or(popped, first), v))
+            none_before = S.And(none_before, S.Not(avail))
+        for first, v in reversed(firsts):
+            if first is not S.FALSE:
+                val = merge(first, v, val)
+        self.wr(st, a[0], FifoV(new))
         if val is UNDEF:
             return none(), st, S.TRUE
-        return option(S.Not(empty), val), st, S.TRUE
+        return option(S.Not(none_before), val), st, S.TRUE
 
     # ------------------------------------------------------------------ vec / iterators
     def vec_push(self, ex, fr, c, a, st, pc):
